@@ -70,10 +70,19 @@ PROPS = {
     "C11": dict(
         lean=["GolibsVerif.Props.C11"],
         seq=[dict(comp="omap", decisive=lambda d: d["op"].startswith("mon C11"),
-                  ignore=lambda d: d["op"].startswith("mon C10"))],
+                  ignore=lambda d: d["op"].startswith("mon C10")),
+             dict(comp="lru", decisive=lambda d: d["op"].startswith("mon C11"))],
         rule="same histories as C10; after EVERY op the Go-side monitor walks the real list from the head and checks linked nodes = Len+1+removed-but-pinned, pinned <= open iterators, and = Len+1 when no iterator is open; non-trivial as in C10",
         assumptions=["GC reachability of pooled nodes and wall-clock cost are runtime notions; the model bounds linked nodes and traversal steps"],
         trusted=["modelled, not verified: as C10"],
         explanation="C11.chain_bound / closed_means_clean / next_fuel_suffices for every history",
+    ),
+    "C08": dict(
+        lean=["GolibsVerif.Props.C08"],
+        seq=[dict(comp="lru", decisive=lambda d: not d["op"].startswith("mon C11"), ignore=lambda d: d["op"].startswith("mon C11"))],
+        rule="cases = call sequences on a fresh cache: exhaustive to depth 5 (quick) / 6 (thorough) over {GetOrCreate 1..3, Remove 1..2, Clear} for capacities 1..3 x {Cache, ECache with key mapping pk%2, create failing on calls 1 and 3}; random sequences of 400 (900) calls for capacities 1..4 and 64 with key mappings id/%3/%5 and ~11% failing creations; ExpirableCache with ttl 3/10/50 ms under a virtual clock; callbacks (create calls with outcome, delete callbacks with key+value, in order) are part of the compared output; non-trivial = an eviction or expiry replacement, a failed creation, or a hit while several entries are resident; distinct by hash of (config, op list)",
+        assumptions=["single caller (concurrency is C09)", "a panicking create function is out of scope"],
+        trusted=["the recency list is modelled at the level of the ordered map's Spec (justified by C10.map_refines_spec)", "time.Now() in expirable.go is redirected to a virtual clock by a textual instrumenter applied to the CURRENT source at build time (overlay)"],
+        explanation="C08.refines_reference: results and callback invocations equal those of a reference LRU (unordered residents + last-use stamps) for every call sequence, any capacity >= 1, any key mapping, any create/expiry oracle; size_le_cap; delete_callback_exactly_once",
     ),
 }
